@@ -3200,7 +3200,18 @@ func (r *Resolver) verifyDNSSEC(ctx context.Context, signer, signed string, resp
 		return false, nil
 	}
 
-	if ok, err = dnssec.VerifyRRSIGWithWork(signer, keys, resp, r.dnssecWork(ctx)); err != nil {
+	verifyKeys := keys
+	if msg == resp {
+		// resp is the signer's own DNSKEY RRset. Its signature counts only
+		// under a key the parent's DS vouches for (RFC 4035 §5.2); any other
+		// member of the set could have been added by whoever forged it.
+		verifyKeys, err = dnssec.AnchoredKeysWithWork(keys, parentdsRR, r.dnssecWork(ctx))
+		if err != nil {
+			return false, err
+		}
+	}
+
+	if ok, err = dnssec.VerifyRRSIGWithWork(signer, verifyKeys, resp, r.dnssecWork(ctx)); err != nil {
 		return
 	}
 
